@@ -281,133 +281,160 @@ Section Gsub.
 End Gsub.
 
 (* ------------------------------------------------------------------ gmatch *)
-(* the matcher of the pattern "x*" on a subject of length len without 'x': the empty match at every
-   position of the subject *)
-Definition empty_matcher (len : Z) : matcher :=
-  fun p => if (0 <=? p) && (p <=? len) then Some (p, []) else None.
-
-Lemma empty_matcher_ok len p e c : empty_matcher len p = Some (e, c) -> p <= e <= len.
-Proof.
-  unfold empty_matcher. destruct (Z.leb_spec 0 p); destruct (Z.leb_spec p len); cbn [andb]; try discriminate.
-  intros [= <- <-]. lia.
-Qed.
-
-Lemma nl_gmatch_empty_loops f : forall s init, 0 <= init <= slen s ->
-  nl_gmatch_all f (empty_matcher (slen s)) s false init = None.
-Proof.
-  induction f as [|f IH]; intros s init Hi; [reflexivity|].
-  cbn [nl_gmatch_all]. unfold nl_ms_match.
-  destruct (Z.ltb_spec (slen s) init); [lia|].
-  assert (Hm : empty_matcher (slen s) init = Some (init, [])).
-  { unfold empty_matcher. destruct (Z.leb_spec 0 init); destruct (Z.leb_spec init (slen s)); cbn [andb]; try lia. reflexivity. }
-  assert (E : nl_search (Z.to_nat (slen s - init)) (empty_matcher (slen s)) false (slen s) init = Some (init, init, [])).
-  { destruct (Z.to_nat (slen s - init)); cbn [nl_search]; rewrite Hm; reflexivity. }
-  rewrite E. rewrite IH by exact Hi. reflexivity.
-Qed.
-
-(* full statement: iterating string.gmatch yields, with enough fuel, the sequence of matches that
-   Lua's gmatch yields *)
-Definition gmatch_eq_lua : Prop :=
-  forall (m : matcher) (s : bytes),
-    (forall p e c, m p = Some (e, c) -> p <= e <= slen s) ->
-    exists fuel, nl_gmatch_all fuel m s false 0 = lua_gmatch m s 0 /\ lua_gmatch m s 0 <> None.
-
-(* ("abc"):gmatch("x*"): Lua yields four empty matches ... *)
-Lemma gmatch_witness_lua :
-  lua_gmatch (empty_matcher 3) [97; 98; 99] 0 = Some [(0, 0, []); (1, 1, []); (2, 2, []); (3, 3, [])].
-Proof. vm_compute. reflexivity. Qed.
-
-(* ... and Nelua's iteration never ends, whatever the fuel *)
-Lemma gmatch_eq_lua_refuted : ~ gmatch_eq_lua.
-Proof.
-  intros H. destruct (H (empty_matcher 3) [97; 98; 99]) as [fuel [E Hne]].
-  { apply empty_matcher_ok. }
-  change 3 with (slen [97; 98; 99]) in E at 1.
-  rewrite nl_gmatch_empty_loops in E by (unfold slen; cbn; lia).
-  apply Hne. symmetry. exact E.
-Qed.
-
-(* the strongest true restriction: a matcher that never matches the empty string *)
-Section GmatchPartial.
+(* string.gmatch after 0222fe3 (lastend rule) and 893bab4 ('^' is no anchor): iterating it yields exactly
+   the sequence of matches Lua's gmatch yields, for every anchored matcher, subject and start *)
+Section Gmatch.
   Variable m : matcher.
   Variable s : bytes.
-  Hypothesis Hm : forall p e c, m p = Some (e, c) -> p < e <= slen s.
+  Hypothesis Hm : forall p e c, m p = Some (e, c) -> p <= e <= slen s.
+  Notation len := (slen s).
 
-  Lemma gm_next_eq k : forall src last, last <= src ->
-    lua_gmatch_next k m (slen s) src last =
-    (if slen s <? src then None else nl_search k m false (slen s) src).
+  Lemma search_false_some k : forall p st e c,
+    nl_search k m false len p = Some (st, e, c) ->
+    p <= st /\ m st = Some (e, c) /\ (forall q, p <= q < st -> m q = None) /\ st <= p + Z.of_nat k.
   Proof.
-    induction k as [|k IH]; intros src last Hl; cbn [lua_gmatch_next nl_search].
-    - destruct (Z.ltb_spec (slen s) src); [reflexivity|].
-      destruct (m src) as [[e c]|] eqn:E.
-      + apply Hm in E. destruct (Z.eqb_spec e last); [lia|]. reflexivity.
-      + rewrite orb_false_r. destruct (slen s <? src + 1); reflexivity.
-    - destruct (Z.ltb_spec (slen s) src); [reflexivity|].
-      destruct (m src) as [[e c]|] eqn:E.
-      + apply Hm in E. destruct (Z.eqb_spec e last); [lia|]. reflexivity.
-      + rewrite orb_false_r. rewrite IH by lia.
-        destruct (Z.ltb_spec (slen s) (src + 1)); reflexivity.
+    induction k as [|k IH]; intros p st e c; cbn [nl_search].
+    - destruct (m p) as [[e0 c0]|] eqn:E; [|destruct ((len <? p + 1) || false); discriminate].
+      intros [= <- <- <-]. repeat split; try lia; auto.
+    - destruct (m p) as [[e0 c0]|] eqn:E.
+      + intros [= <- <- <-]. repeat split; try lia; auto.
+      + rewrite orb_false_r. destruct (Z.ltb_spec len (p + 1)) as [Hlp|Hlp]; [discriminate|].
+        intros Hs. apply IH in Hs. destruct Hs as (H1 & H2 & H3 & H4).
+        split; [lia|]. split; [exact H2|]. split; [|lia].
+        intros q Hq. destruct (Z.eq_dec q p) as [->|]; [exact E|]. apply H3. lia.
   Qed.
 
-  Lemma nl_search_ge k : forall len p st e c,
-    nl_search k m false len p = Some (st, e, c) -> p <= st /\ m st = Some (e, c).
+  Lemma search_false_none k : forall p, nl_search k m false len p = None -> p + Z.of_nat k >= len ->
+    forall q, p <= q <= len -> m q = None.
   Proof.
-    induction k as [|k IH]; intros len p st e c; cbn [nl_search].
-    - destruct (m p) as [[e0 c0]|] eqn:E; [intros [= <- <- <-]; split; [lia|exact E]|].
-      destruct ((len <? p + 1) || false); discriminate.
-    - destruct (m p) as [[e0 c0]|] eqn:E; [intros [= <- <- <-]; split; [lia|exact E]|].
-      destruct ((len <? p + 1) || false); [discriminate|]. intros H. apply IH in H. split; [lia|tauto].
+    induction k as [|k IH]; intros p; cbn [nl_search].
+    - destruct (m p) as [[e0 c0]|] eqn:E; [discriminate|]. intros _ Hk q Hq. assert (q = p) by lia. subst. exact E.
+    - destruct (m p) as [[e0 c0]|] eqn:E; [discriminate|]. rewrite orb_false_r.
+      destruct (Z.ltb_spec len (p + 1)) as [Hlp|Hlp].
+      + intros _ _ q Hq. assert (q = p) by lia. subst. exact E.
+      + intros Hs Hk q Hq. destruct (Z.eq_dec q p) as [->|]; [exact E|]. apply (IH (p + 1) Hs); lia.
   Qed.
 
-  Lemma gmatch_all_eq f : forall src last, last <= src ->
-    lua_gmatch_all f m s src last = nl_gmatch_all f m s false src.
+  Lemma lua_next_none k : forall src last, (forall q, src <= q <= len -> m q = None) ->
+    lua_gmatch_next k m len src last = None.
   Proof.
-    induction f as [|f IH]; intros src last Hl; [reflexivity|].
-    cbn [lua_gmatch_all nl_gmatch_all]. unfold nl_ms_match. rewrite gm_next_eq by exact Hl.
-    destruct (slen s <? src); [reflexivity|].
-    destruct (nl_search (Z.to_nat (slen s - src)) m false (slen s) src) as [[[st e] c]|]; [|reflexivity].
-    rewrite IH by lia. reflexivity.
+    induction k as [|k IH]; intros src last Hn; cbn [lua_gmatch_next];
+      destruct (Z.ltb_spec len src); try reflexivity; rewrite (Hn src) by lia; [reflexivity|].
+    apply IH. intros q Hq. apply Hn. lia.
   Qed.
 
-  Lemma nl_gmatch_total f : forall src, Z.max 0 (slen s - src + 1) < Z.of_nat f ->
-    nl_gmatch_all f m s false src <> None.
+  Lemma lua_next_skip d : forall k src last, (forall q, src <= q < src + Z.of_nat d -> m q = None) ->
+    src + Z.of_nat d <= len ->
+    lua_gmatch_next (d + k) m len src last = lua_gmatch_next k m len (src + Z.of_nat d) last.
   Proof.
-    induction f as [|f IH]; intros src Hf; [lia|].
-    cbn [nl_gmatch_all]. unfold nl_ms_match.
-    destruct (Z.ltb_spec (slen s) src); [discriminate|].
-    destruct (nl_search (Z.to_nat (slen s - src)) m false (slen s) src) as [[[st e] c]|] eqn:E; [|discriminate].
-    apply nl_search_ge in E. destruct E as [Hst E]. apply Hm in E.
-    specialize (IH e ltac:(lia)). destruct (nl_gmatch_all f m s false e); [discriminate|contradiction].
+    induction d as [|d IH]; intros k src last Hn Hl.
+    - cbn [Nat.add Z.of_nat]. rewrite Z.add_0_r. reflexivity.
+    - cbn [Nat.add lua_gmatch_next]. destruct (Z.ltb_spec len src); [lia|].
+      rewrite (Hn src) by lia. rewrite IH; [f_equal; lia| |lia].
+      intros q Hq. apply Hn. lia.
   Qed.
 
-  Theorem gmatch_eq_lua_partial_gen init : 0 <= init ->
-    nl_gmatch_all (S (S (length s))) m s false init = lua_gmatch m s init /\ lua_gmatch m s init <> None.
+  Lemma next_out pos : len < pos ->
+    (forall kN le, nl_gmatch_next kN m s pos le = None) /\ (forall k last, lua_gmatch_next k m len pos last = None).
   Proof.
-    intros Hi. unfold lua_gmatch. rewrite gmatch_all_eq by lia. split; [reflexivity|].
-    apply nl_gmatch_total. unfold slen. lia.
+    intros H. split.
+    - intros kN le. destruct kN; cbn [nl_gmatch_next]; unfold nl_ms_match; destruct (Z.ltb_spec len pos); try lia; reflexivity.
+    - intros k last. destruct k; cbn [lua_gmatch_next]; destruct (Z.ltb_spec len pos); try lia; reflexivity.
   Qed.
-End GmatchPartial.
+
+  (* one call of the iterator *)
+  Lemma gmatch_next_eq n : forall pos last kN, 0 <= pos -> (Z.to_nat (len + 1 - pos) <= n)%nat -> (n <= kN)%nat ->
+    nl_gmatch_next kN m s pos (last + 1) = lua_gmatch_next (Z.to_nat (len - pos)) m len pos last.
+  Proof.
+    induction n as [|n IH]; intros pos last kN Hpos Hn Hk.
+    - (* pos > len *)
+      destruct (next_out pos ltac:(lia)) as [E1 E2]. rewrite E1, E2. reflexivity.
+    - destruct (Z.ltb_spec len pos) as [Hout|Hin].
+      { destruct (next_out pos Hout) as [E1 E2]. rewrite E1, E2. reflexivity. }
+      assert (Hstep : nl_gmatch_next kN m s pos (last + 1) =
+                      match nl_ms_match s m false pos with
+                      | None => None
+                      | Some (st, e, c) =>
+                          if e + 1 =? last + 1 then
+                            match kN with O => None | S k' => nl_gmatch_next k' m s (st + 1) (last + 1) end
+                          else Some (st, e, c)
+                      end) by (destruct kN; reflexivity).
+      rewrite Hstep. unfold nl_ms_match. destruct (Z.ltb_spec len pos); [lia|].
+      destruct (nl_search (Z.to_nat (len - pos)) m false len pos) as [[[st e] c]|] eqn:Es.
+      + apply search_false_some in Es. destruct Es as (H1 & H2 & H3 & H4).
+        assert (Hst : st <= len) by lia.
+        replace (Z.to_nat (len - pos)) with (Z.to_nat (st - pos) + Z.to_nat (len - st))%nat by lia.
+        rewrite lua_next_skip; [|intros q Hq; apply H3; lia|lia].
+        replace (pos + Z.of_nat (Z.to_nat (st - pos))) with st by lia.
+        destruct (Z.eqb_spec (e + 1) (last + 1)) as [He|He].
+        * (* ends where the last match ended: both go on one character later *)
+          assert (e = last) by lia. subst e.
+          destruct (Z.to_nat (len - st)) as [|k'] eqn:Ek; cbn [lua_gmatch_next];
+            (destruct (Z.ltb_spec len st); [lia|]); rewrite H2, Z.eqb_refl; cbn [negb].
+          -- (* st = len: nothing left *)
+             destruct kN as [|kN']; [reflexivity|].
+             apply (next_out (st + 1)). lia.
+          -- destruct kN as [|kN']; [lia|].
+             rewrite (IH (st + 1) last kN') by lia. f_equal. lia.
+        * destruct (Z.to_nat (len - st)); cbn [lua_gmatch_next];
+            (destruct (Z.ltb_spec len st); [lia|]); rewrite H2;
+            (destruct (Z.eqb_spec e last); [lia|reflexivity]).
+      + symmetry. apply lua_next_none. apply (search_false_none _ _ Es). lia.
+  Qed.
+
+  Lemma gmatch_all_eq f : forall src last, 0 <= src ->
+    nl_gmatch_all f m s src (last + 1) = lua_gmatch_all f m s src last.
+  Proof.
+    induction f as [|f IH]; intros src last Hs; [reflexivity|].
+    cbn [nl_gmatch_all lua_gmatch_all].
+    rewrite (gmatch_next_eq (S (length s)) src last (S (length s))) by (unfold slen; lia).
+    destruct (lua_gmatch_next (Z.to_nat (len - src)) m len src last) as [[[st e] c]|] eqn:E; [|reflexivity].
+    assert (He : 0 <= e).
+    { clear IH. revert E. generalize (Z.to_nat (len - src)) as k. intros k. revert src Hs.
+      induction k as [|k IHk]; intros src Hs; cbn [lua_gmatch_next]; destruct (len <? src); try discriminate;
+        destruct (m src) as [[e0 c0]|] eqn:Em; try discriminate.
+      - destruct (negb (e0 =? last)); [|discriminate]. intros [= <- <- <-]. apply Hm in Em. lia.
+      - destruct (negb (e0 =? last)); [intros [= <- <- <-]; apply Hm in Em; lia|]. apply IHk. lia.
+      - apply IHk. lia. }
+    rewrite (IH e e He). reflexivity.
+  Qed.
+
+  Lemma lua_next_range k : forall src last st e c, lua_gmatch_next k m len src last = Some (st, e, c) ->
+    src <= st /\ st <= e <= len /\ e <> last.
+  Proof.
+    induction k as [|k IH]; intros src last st e c; cbn [lua_gmatch_next]; destruct (len <? src); try discriminate;
+      destruct (m src) as [[e0 c0]|] eqn:Em; try discriminate.
+    - destruct (Z.eqb_spec e0 last); cbn [negb]; [discriminate|]. intros [= <- <- <-]. apply Hm in Em. lia.
+    - destruct (Z.eqb_spec e0 last); cbn [negb].
+      + intros H. apply IH in H. lia.
+      + intros [= <- <- <-]. apply Hm in Em. lia.
+    - intros H. apply IH in H. lia.
+  Qed.
+
+  (* Lua's iteration ends: after a match ending at e the next match ends strictly later *)
+  Lemma lua_gmatch_total f : forall src last, last <= src -> Z.max 0 (len - last) < Z.of_nat f ->
+    lua_gmatch_all f m s src last <> None.
+  Proof.
+    induction f as [|f IH]; intros src last Hl Hf; [lia|].
+    cbn [lua_gmatch_all].
+    destruct (lua_gmatch_next (Z.to_nat (len - src)) m len src last) as [[[st e] c]|] eqn:E; [|discriminate].
+    apply lua_next_range in E. destruct E as (H1 & H2 & H3).
+    assert (last < e) by lia.
+    specialize (IH e e ltac:(lia) ltac:(lia)). destruct (lua_gmatch_all f m s e e); [discriminate|contradiction].
+  Qed.
+
+  Theorem gmatch_eq_lua_gen init : 0 <= init ->
+    nl_gmatch m s init = lua_gmatch m s init /\ lua_gmatch m s init <> None.
+  Proof.
+    intros Hi. unfold nl_gmatch, lua_gmatch. change 0 with (-1 + 1) at 1.
+    rewrite gmatch_all_eq by exact Hi. split; [reflexivity|].
+    apply lua_gmatch_total; [lia|]. unfold slen. lia.
+  Qed.
+End Gmatch.
 
 (* ------------------------------------------------------------------ max / min with two arguments *)
-(* full statement: math.max(x, y) / math.min(x, y) agree with Lua for every order relation [lt] *)
-Definition max2_eq_lua : Prop :=
-  forall (A : Type) (lt : A -> A -> bool) (x y : A),
-    nl_max2_gen A lt x y = lua_max2_gen A lt x y /\ nl_min2_gen A lt x y = lua_min2_gen A lt x y.
-
-(* floats: NaN is below nothing and above nothing (the same happens with 0.0 and -0.0, which compare
-   equal but differ); modelled as the two-point domain with the empty order *)
-Lemma max2_eq_lua_refuted : ~ max2_eq_lua.
-Proof.
-  intros H. destruct (H bool (fun _ _ => false) true false) as [E _]. discriminate.
-Qed.
-
-(* the strongest true restriction: any total order in which incomparable means equal (integers) *)
-Lemma max2_eq_lua_partial (A : Type) (lt : A -> A -> bool) (x y : A) :
-  (lt x y = false -> lt y x = false -> x = y) -> (lt x y = true -> lt y x = false) ->
+(* after 873f3b9 the two-argument forms compare exactly like lmathlib.c, for every order relation
+   (floats with NaN and signed zeros included) *)
+Lemma max2_eq_lua (A : Type) (lt : A -> A -> bool) (x y : A) :
   nl_max2_gen A lt x y = lua_max2_gen A lt x y /\ nl_min2_gen A lt x y = lua_min2_gen A lt x y.
-Proof.
-  intros Htot Hasym. unfold nl_max2_gen, lua_max2_gen, nl_min2_gen, lua_min2_gen.
-  destruct (lt x y) eqn:E1; destruct (lt y x) eqn:E2; auto.
-  all: try (specialize (Hasym eq_refl); congruence).
-  all: specialize (Htot eq_refl eq_refl); subst; auto.
-Qed.
+Proof. split; reflexivity. Qed.
